@@ -418,6 +418,33 @@ def validate_cells(pdb):
     return cells
 
 
+def no_static_state(ctx, rule):
+    """verdicts depend on the arguments only: the BGPsec units keep no mutable file-scope or function-static state"""
+    pdb = ctx.pdb
+    bad = []
+    n = 0
+    for f in pdb.all_functions():
+        if not f.unit.startswith("rtrlib/bgpsec/"):
+            continue
+        n += 1
+        for i in f.all_insts():
+            refs = []
+            if i.op in ("load", "store"):
+                refs.append(i["ptr"])
+            elif i.op == "call":
+                refs += [a for a in i.args if isinstance(a, str)]
+            for r_ in refs:
+                r = vf.root_of(vf.expr(f, r_))
+                if isinstance(r, tuple) and r[0] == "g":
+                    g = pdb.glob_in(f.unit, r[1])
+                    if g is not None and not g.get("const") and not pdb.has_fn(r[1]):
+                        bad.append((i, r[1]))
+    ctx.check(not bad, rule, "bgpsec:no-mutable-static-state", (bad[0][0].loc() if bad else "rtrlib/bgpsec"),
+              ("mutable global/static %s is used in %s: the outcome of a call depends on earlier calls" % (bad[0][1], bad[0][0].fn.name)) if bad else
+              "%d functions of the BGPsec units touch no mutable global or static object" % n, key="%s:static-state" % rule)
+    ctx.floor(rule, n, 10)
+
+
 def check(ctx):
     pdb = ctx.pdb
     retsets = flow.return_sets(pdb)
@@ -428,6 +455,7 @@ def check(ctx):
     ctx.rule("C11.R5", "rtr_bgpsec_validate_as_path refuses NULL arguments, unequal segment counts, unsupported suite, AFI outside {1,2} "
              "and a missing router key with their specific codes, before anything is hashed")
     r5(ctx, retsets, VP, "C11.R5", validate_cells(pdb))
+    no_static_state(ctx, "C11.R5")
     # check_router_keys: every signature segment's SKI must have at least one key
     ck = pdb.fn("check_router_keys")
     ctx.touch(ck)
@@ -441,6 +469,18 @@ def check(ctx):
             any(x[0] == "load" and x[1][0] == "alloca" for x in (vf.expr(ck, i["a"]), vf.expr(ck, i["b"])))]
     ctx.check(len(lens) == 1 and E_["RTR_BGPSEC_ROUTER_KEY_NOT_FOUND"] in (retsets.get((ck.unit, ck.name)) or ()), "C11.R5", "check_router_keys:zero-results=>not-found",
               "%s:%d" % (ck.relfile, ck.line), "a signature segment without any key for its SKI yields ROUTER_KEY_NOT_FOUND", key="C11.R5:check_router_keys")
+    # ... and the SKI looked up is the one of the segment the walk stands on: the walk variable starts at the list head and moves by .next
+    for c in ck.calls("spki_table_search_by_ski"):
+        e = vf.expr(ck, c.args[1])
+        r = vf.root_of(e)
+        walk = False
+        if isinstance(r, tuple) and r[0] == "phi":
+            ph = ck.insts[r[1]]
+            inc = [vf.expr(ck, v) for v, b in ph["inc"]]
+            walk = ("arg", 0) in inc and any(x[0] == "load" and x[1] == ("fld", r, "rtr_signature_seg.next") for x in inc)
+        ctx.check(walk and vf.mentions(e, lambda x: isinstance(x, tuple) and x[0] == "fld" and x[2] == "rtr_signature_seg.ski") and vf.expr(ck, c.args[0]) == ("arg", 1),
+                  "C11.R5", "check_router_keys:ski-of-the-current-segment", c.loc(),
+                  "looked up: %s (the walk variable runs from the first signature segment along .next: %s)" % (vf.show(e), walk), key="C11.R5:check_router_keys:ski")
     ctx.not_decided("ECDSA verification, SHA-256 and DER parsing (OpenSSL)")
     ctx.not_decided("that a changed signed bit changes the digest (follows from R3 + SHA-256, not checked)")
 
